@@ -35,7 +35,7 @@ Ids == {
   << W("thrift", "l"), W("module", "l") >>, << << A("thrift", "t"), A("module", "t") >> >>, << W("values", "l") >>,
   << W("x", "l") >>, << W("x", "u") >>, << W("success", "l") >>, << W("decode", "l") >>, << W("from", "l"), W("wire", "l") >> }
 
-AllFamilies == {"twodefs", "fields", "items", "constref"}
+AllFamilies == {"twodefs", "fields", "items", "constref", "goname"}
 Kinds == {"struct", "union", "exception", "typedef", "enum", "const", "service"}
 Named(id) == [name |-> id, txt |-> Text(id)]
 Fld(id, opt) == [name |-> id, txt |-> Text(id), goname |-> "", opt |-> opt]
@@ -75,14 +75,23 @@ TwoItems == "items" \in Families /\ \E i2 \in Ids :
 ConstRef == "constref" \in Families /\ \E ty \in {"i32", "TI", "E", "TS"}, cross \in BOOLEAN :
    /\ prog' = << [Def("const", first, << >>, << >>, << >>) EXCEPT !.ty = ty, !.cross = cross] >> /\ fam' = "constref"
 
-Next == Pick \/ (fam = "picked" /\ UNCHANGED first /\ (TwoDefs \/ ItemMeetsDef \/ TwoFields \/ TwoParams \/ TwoItems \/ ConstRef))
+\* go.name annotations on definitions and fields: valid, invalid, equal to each other, to a reserved method, to an accessor
+Annotated == "goname" \in Families /\ first = << W("foo", "l") >> /\ \E g1, g2 \in GoNamePool \cup {""} :
+   \/ \E k1, k2 \in {"struct", "enum", "typedef", "exception"} :
+        prog' = << [Plain(k1, << W("foo", "l") >>) EXCEPT !.goname = g1], [Plain(k2, << W("bar", "l") >>) EXCEPT !.goname = g2] >> /\ fam' = "gonamedefs"
+   \/ \E kind \in {"struct", "union", "exception"}, o1 \in BOOLEAN :
+        prog' = << Def(kind, << W("foo", "t") >>, << >>,
+                       << [Fld(<< W("foo", "l") >>, o1 \/ kind = "union") EXCEPT !.goname = g1], [Fld(<< W("bar", "l") >>, TRUE) EXCEPT !.goname = g2] >>, << >>) >>
+        /\ fam' = "gonamefields"
+
+Next == Pick \/ (fam = "picked" /\ UNCHANGED first /\ (Annotated \/ TwoDefs \/ ItemMeetsDef \/ TwoFields \/ TwoParams \/ TwoItems \/ ConstRef))
 Spec == Init /\ [][Next]_vars
 
 AcceptedBuilds == prog # None => \A o \in OptionSets : ModelAccepts(prog, o) => ModelBuilds(prog, o)
 SafeAccepted   == prog # None => \A o \in OptionSets : Safe(prog) => ModelAccepts(prog, o)
 
 \* interesting = some two names meet, or a field meets a method
-Interesting == ~Safe(prog) \/ fam = "constref"
+Interesting == ~Safe(prog) \/ fam \in {"constref", "gonamedefs", "gonamefields"}
 RECURSIVE Hash(_, _)
 Hash(s, i) == IF i > Len(s) THEN 0 ELSE (IF s[i] = "_" THEN 3 ELSE 7) + 2 * Hash(s, i + 1)
 TxtHash == Len(prog) + Len(prog[1].txt) * 5 + (IF Len(prog) > 1 THEN Len(prog[2].txt) * 11 ELSE 0)
